@@ -851,6 +851,8 @@ def main(ctx):
         "locations": {k: list(v) for k, v in LOCS.items()},
         "extent_deg_m": {k: list(v) for k, v in EXTENT.items()},
         "rotation_deg": ROT,
+        "orientations": ["nu (north-up)", "rot (20 deg)", "mx / su / r180 (axis-aligned, columns east-west and/or rows "
+                         "south-north; slice mirrored-sources)"],
         "source_shapes_max_all_pixels": [64, 64],
         "source_shapes_boundary_only_max": [2000, 1500] if t else [768, 1024],
         "targets": ["EPSG:4326", "EPSG:3857", "EPSG:3035/3577/6933", "EPSG:326xx/327xx", "utm", "utm-n", "utm-s", "own"],
@@ -888,6 +890,9 @@ def main(ctx):
         "utm: result EPSG in 32601..32660 / 32701..32760; hemisphere as requested for -n/-s; the zone's area of use "
         "overlaps the raster's lon/lat box in longitude and (for plain 'utm') in latitude",
         "xarray slice: the raster is the GeoBox xarray hands back (.odc.geobox); its registration is C09's subject",
+        "mirrored-sources: axis-aligned GeoBoxes whose columns run east-west and/or rows south-north are source GeoBoxes "
+        "like any other (the quantifier's 'north-up and rotated' is read as 'any orientation'); kept in their own slice, "
+        "finding keys carry the orientation (mx / su / r180)",
     ]
     sl = slices(ctx.tier)
     if ctx.only:
